@@ -104,7 +104,10 @@ func (g *exprGen) predicates(depth int) string {
 	n := g.t.Pick(6, 3, 1)
 	for i := 0; i < n && g.budget > 0; i++ {
 		b.WriteString("[" + g.ws())
-		switch g.t.Pick(3, 2, 3, 1) {
+		switch g.t.Pick(3, 2, 3, 1, 1) {
+		case 4:
+			// numeric predicates that select nothing or need rounding care
+			b.WriteString([]string{"0", "-1", "-2", "1.5", "0.5", "1.0", "01", "99999999999", "1 div 0", "0 div 0", "-0", "2 - 1", "1e0"}[g.t.Pick(2, 3, 2, 2, 1, 2, 1, 1, 1, 1, 1, 1, 0)])
 		case 0:
 			fmt.Fprintf(&b, "%d", 1+g.t.Draw(3))
 		case 1:
